@@ -329,11 +329,10 @@ static int ex_region(char *loc, int *beg, int *end)
 		return 0;
 	}
 	if (!*loc) {
-		if (xrow < 0 || xrow > lbuf_len(xb))
-			return 1;	/* the current line was left outside the buffer */
 		*beg = xrow;
 		*end = xrow == lbuf_len(xb) ? xrow : xrow + 1;
-		return 0;
+		/* the current line may have been left outside the buffer */
+		return xrow < 0 || xrow > lbuf_len(xb);
 	}
 	while (*loc) {
 		int end0 = *end;
